@@ -11,3 +11,4 @@ def run(repo: Repo, rep: Report) -> None:
     opc.check_helpers(repo, rep, world)
     z3m.check_z3_backend(repo, rep)
     z3m.check_variable_identity(repo, rep)
+    z3m.check_tree_immutability(repo, rep)
